@@ -178,6 +178,7 @@ class Engine:
         self._work = None
         self.stats = {"paths": 0, "feasibility_checks": 0, "solver_time": 0.0}
         self.used_inline = set()
+        self.interpreted = set()       # qualnames of every repository function whose body was interpreted
         self.used_contracts = set()
         self.used_lib = set()
         self.noops = []
@@ -401,6 +402,7 @@ class Engine:
     def run_function(self, fi, args, kwargs=None, self_val=None, extra_env=None):
         """Interpret the body of fi with the given actual arguments."""
         self.check_decorators(fi)
+        self.interpreted.add(fi.qualname)
         kwargs = dict(kwargs or {})
         env = self.bind_args(fi.node.args, args, kwargs, self_val, fi)
         if extra_env:
